@@ -1,4 +1,4 @@
 SPECIFICATION Spec
-INVARIANTS AtMostOnce RanOnWorker RunOrCancelOnce NoHang AwNotForgotten
+INVARIANTS AtMostOnce RanOnWorker RunOrCancelOnce NoHang AwNotForgotten WorkerNeverWaitsForJob NoFutureHangs ThreadsOwnedOnce
 PROPERTY Termination
 CHECK_DEADLOCK FALSE
